@@ -1,7 +1,7 @@
 (* The Document kernel (Model/Doc.v): instances of the generic datatype facts, and the JSON-pointer codec. *)
 From Coq Require Import List NArith ZArith Bool Lia.
 From Orda.Model Require Import Base Time Ops Counter Map List Datatype CheckCrdt Doc CheckDoc.
-From Orda.Proofs Require Import DatatypeFacts KernelInst.
+From Orda.Proofs Require Import DatatypeFacts KernelInst CodecFacts.
 Import ListNotations.
 Open Scope N_scope.
 
@@ -115,3 +115,158 @@ Qed.
    of [u_local]; spelled out for the record *)
 Theorem patch_is_api_call s p c i : patch_call s p = Some c -> u_local s (UPatch p) i = doc_local s c i /\ u_validate s (UPatch p) = doc_validate s c.
 Proof. intros H. cbn. rewrite H. auto. Qed.
+
+(* ---------- creating the tree of a value: identifiers and readable value ---------- *)
+Fixpoint carr (t : ts) (vs : list val) (i : N) : list (ts * jt) * N :=
+  match vs with
+  | [] => ([], i)
+  | x :: xs => let '(j, i1) := create t x i in let '(r, i2) := carr t xs i1 in ((jc j, j) :: r, i2)
+  end.
+Fixpoint cobj (t : ts) (kvs : list (str * val)) (i : N) : list (str * jt) * N :=
+  match kvs with
+  | [] => ([], i)
+  | (k, x) :: xs => let '(j, i1) := create t x i in let '(r, i2) := cobj t xs i1 in ((k, j) :: r, i2)
+  end.
+
+Lemma create_arr t vs i :
+  create t (VArr vs) i = let '(l, i') := carr t vs (i + 1) in (JA (ts_at t i) None l (Z.of_nat (length l)), i').
+Proof.
+  cbn [create].
+  assert (E : forall vs i, (fix go (vs : list val) (i : N) {struct vs} : list (ts * jt) * N :=
+                              match vs with
+                              | [] => ([], i)
+                              | x :: xs => let '(j, i1) := create t x i in let '(r, i2) := go xs i1 in ((jc j, j) :: r, i2)
+                              end) vs i = carr t vs i).
+  { clear. induction vs as [|x xs IH]; intros i; [reflexivity|]. cbn [carr]. destruct (create t x i) as [j i1]. rewrite IH. reflexivity. }
+  rewrite E. reflexivity.
+Qed.
+Lemma create_obj t kvs i :
+  create t (VObj kvs) i = let '(m, i') := cobj t kvs (i + 1) in (JO (ts_at t i) None m (Z.of_nat (length m)), i').
+Proof.
+  cbn [create].
+  assert (E : forall kvs i, (fix go (kvs : list (str * val)) (i : N) {struct kvs} : list (str * jt) * N :=
+                               match kvs with
+                               | [] => ([], i)
+                               | (k, x) :: xs => let '(j, i1) := create t x i in let '(r, i2) := go xs i1 in ((k, j) :: r, i2)
+                               end) kvs i = cobj t kvs i).
+  { clear. induction kvs as [|[k x] xs IH]; intros i; [reflexivity|]. cbn [cobj]. destruct (create t x i) as [j i1]. rewrite IH. reflexivity. }
+  rewrite E. reflexivity.
+Qed.
+
+Fixpoint vcount (v : val) : nat :=
+  match v with
+  | VArr vs => S (fold_right (fun x a => (vcount x + a)%nat) 0%nat vs)
+  | VObj kvs => S (fold_right (fun kv a => match kv with (_, x) => (vcount x + a)%nat end) 0%nat kvs)
+  | _ => 1%nat
+  end.
+Fixpoint nrange (i : N) (n : nat) : list N := match n with O => [] | S n' => i :: nrange (i + 1) n' end.
+
+Lemma nrange_app a b : forall i, nrange i (a + b) = nrange i a ++ nrange (i + N.of_nat a) b.
+Proof.
+  induction a as [|a IH]; intros i; cbn [nrange plus app].
+  - rewrite N.add_0_r. reflexivity.
+  - rewrite IH. do 3 f_equal. rewrite Nat2N.inj_succ. lia.
+Qed.
+Lemma nrange_in i n x : In x (nrange i n) <-> i <= x < i + N.of_nat n.
+Proof.
+  revert i; induction n as [|n IH]; intros i; cbn [nrange In]; [cbn; lia|]. rewrite IH, Nat2N.inj_succ. lia.
+Qed.
+Lemma nrange_nodup n : forall i, NoDup (nrange i n).
+Proof.
+  induction n as [|n IH]; intros i; cbn; constructor; [|apply IH]. rewrite nrange_in. lia.
+Qed.
+
+(* the identifiers of the tree created for a value: the operation's timestamp with the consecutive delimiters
+   i, i+1, ..., one per node, parents before children *)
+Theorem create_ids t v : forall i,
+  let '(j, i') := create t v i in
+  i' = i + N.of_nat (vcount v) /\ all_cs j = map (ts_at t) (nrange i (vcount v)).
+Proof.
+  induction v as [z|s|b|vs IH|kvs IH] using val_ind'; intros i; try (cbn; split; [lia|reflexivity]).
+  - rewrite create_arr. cbn [vcount].
+    assert (L : forall vs, Forall (fun v => forall i, let '(j, i') := create t v i in
+                                   i' = i + N.of_nat (vcount v) /\ all_cs j = map (ts_at t) (nrange i (vcount v))) vs ->
+              forall i, let '(l, i') := carr t vs i in
+                        let n := fold_right (fun x a => (vcount x + a)%nat) 0%nat vs in
+                        i' = i + N.of_nat n /\ flat_map (fun oc => match oc with (_, x) => all_cs x end) l = map (ts_at t) (nrange i n)).
+    { clear. induction vs as [|x xs IHl]; intros H i0; cbn [carr fold_right]; [split; [lia|reflexivity]|].
+      inversion H as [|? ? Hx Hxs]; subst. specialize (Hx i0). destruct (create t x i0) as [j i1]. destruct Hx as [E1 E2].
+      specialize (IHl Hxs i1). destruct (carr t xs i1) as [r i2]. cbv zeta in IHl. destruct IHl as [F1 F2].
+      split; [lia|]. cbn [flat_map]. rewrite E2, F2, nrange_app, map_app. subst i1. reflexivity. }
+    specialize (L vs IH (i + 1)). destruct (carr t vs (i + 1)) as [l i']. cbv zeta in L. destruct L as [L1 L2].
+    split; [lia|]. cbn [all_cs nrange map]. rewrite L2. reflexivity.
+  - rewrite create_obj. cbn [vcount].
+    assert (L : forall kvs, Forall (fun kv => forall i, let '(j, i') := create t (snd kv) i in
+                                   i' = i + N.of_nat (vcount (snd kv)) /\ all_cs j = map (ts_at t) (nrange i (vcount (snd kv)))) kvs ->
+              forall i, let '(m, i') := cobj t kvs i in
+                        let n := fold_right (fun kv a => match kv with (_, x) => (vcount x + a)%nat end) 0%nat kvs in
+                        i' = i + N.of_nat n /\ flat_map (fun kc => match kc with (_, x) => all_cs x end) m = map (ts_at t) (nrange i n)).
+    { clear. induction kvs as [|[k x] xs IHl]; intros H i0; cbn [cobj fold_right]; [split; [lia|reflexivity]|].
+      inversion H as [|? ? Hx Hxs]; subst. cbn [snd] in Hx. specialize (Hx i0). destruct (create t x i0) as [j i1]. destruct Hx as [E1 E2].
+      specialize (IHl Hxs i1). destruct (cobj t xs i1) as [r i2]. cbv zeta in IHl. destruct IHl as [F1 F2].
+      split; [lia|]. cbn [flat_map]. rewrite E2, F2, nrange_app, map_app. subst i1. reflexivity. }
+    specialize (L kvs IH (i + 1)). destruct (cobj t kvs (i + 1)) as [m i']. cbv zeta in L. destruct L as [L1 L2].
+    split; [lia|]. cbn [all_cs nrange map]. rewrite L2. reflexivity.
+Qed.
+
+Lemma ts_at_inj t a b : ts_at t a = ts_at t b -> a = b.
+Proof. unfold ts_at. intros [= H]. lia. Qed.
+
+(* C15 for nested values: whatever the nesting depth and the number of members, no two nodes of the tree created
+   for one value share an identifier *)
+Theorem create_ids_distinct t v i : NoDup (all_cs (fst (create t v i))).
+Proof.
+  pose proof (create_ids t v i) as H. destruct (create t v i) as [j i']. cbn [fst]. destruct H as [_ ->].
+  assert (G : forall l : list N, NoDup l -> NoDup (map (ts_at t) l)).
+  { induction l as [|a l IH]; cbn; intros H; [constructor|]. inversion H as [|? ? Hn Hd]; subst. constructor; [|apply IH, Hd].
+    intros Hin. apply in_map_iff in Hin. destruct Hin as [b [E Hb]]. apply ts_at_inj in E. subst b. contradiction. }
+  apply G, nrange_nodup.
+Qed.
+
+(* ---------- a value that is put reads back as itself ---------- *)
+From Orda.Proofs Require Import SortFacts.
+
+(* the JSON values as the implementation shows them: object members in key order, keys distinct *)
+Inductive canon : val -> Prop :=
+| CNum z : canon (VNum z)
+| CStr s : canon (VStr s)
+| CBool b : canon (VBool b)
+| CArr vs : Forall canon vs -> canon (VArr vs)
+| CObj kvs : ksorted kvs -> Forall (fun kv => canon (snd kv)) kvs -> canon (VObj kvs).
+
+Lemma create_not_tomb t v i : jtomb (fst (create t v i)) = false.
+Proof.
+  destruct v; try reflexivity.
+  - rewrite create_arr. destruct (carr t l (i + 1)). reflexivity.
+  - rewrite create_obj. destruct (cobj t l (i + 1)). reflexivity.
+Qed.
+
+Lemma sorted_sort_id {V} (l : list (str * V)) : ksorted l -> sort_by_key l = l.
+Proof.
+  induction l as [|[k v] l IH]; [reflexivity|]. cbn [ksorted fst]. intros [H1 H2]. cbn [sort_by_key fold_right fst snd].
+  fold (sort_by_key l). rewrite IH by exact H2. destruct l as [|[k' v'] l']; [reflexivity|]. cbn [ins_sorted].
+  inversion H1 as [|? ? Hk _]; subst. cbn [fst] in Hk. unfold klt' in Hk. rewrite Hk. reflexivity.
+Qed.
+
+Theorem create_view t v : canon v -> forall i, jview (fst (create t v i)) = v.
+Proof.
+  induction v as [z|s|b|vs IH|kvs IH] using val_ind'; intros Hc i; try reflexivity.
+  - inversion Hc as [| | |? Hvs|]; subst. rewrite create_arr.
+    assert (L : forall vs, Forall (fun v => canon v -> forall i, jview (fst (create t v i)) = v) vs -> Forall canon vs ->
+              forall i, flat_map (fun oc : ts * jt => match oc with (_, c) => if jtomb c then [] else [jview c] end) (fst (carr t vs i)) = vs).
+    { clear. induction vs as [|x xs IHl]; intros H Hc i0; [reflexivity|]. cbn [carr].
+      inversion H as [|? ? Hx Hxs]; subst. inversion Hc as [|? ? Cx Cxs]; subst.
+      pose proof (Hx Cx i0) as Ex. pose proof (create_not_tomb t x i0) as Tx. destruct (create t x i0) as [j i1]. cbn [fst] in Ex, Tx.
+      specialize (IHl Hxs Cxs i1). destruct (carr t xs i1) as [r i2]. cbn [fst flat_map] in *. rewrite Tx, Ex, IHl. reflexivity. }
+    specialize (L vs IH Hvs (i + 1)). destruct (carr t vs (i + 1)) as [l i']. cbn [fst jview] in *. rewrite L. reflexivity.
+  - inversion Hc as [| | | |? Hs Hkvs]; subst. rewrite create_obj.
+    assert (L : forall kvs, Forall (fun kv => canon (snd kv) -> forall i, jview (fst (create t (snd kv) i)) = snd kv) kvs ->
+              Forall (fun kv => canon (snd kv)) kvs ->
+              forall i, flat_map (fun kc : str * jt => match kc with (k, c) => if jtomb c then [] else [(k, jview c)] end) (fst (cobj t kvs i)) = kvs).
+    { clear. induction kvs as [|[k x] xs IHl]; intros H Hc i0; [reflexivity|]. cbn [cobj].
+      inversion H as [|? ? Hx Hxs]; subst. inversion Hc as [|? ? Cx Cxs]; subst. cbn [snd] in Hx, Cx.
+      pose proof (Hx Cx i0) as Ex. pose proof (create_not_tomb t x i0) as Tx. destruct (create t x i0) as [j i1]. cbn [fst] in Ex, Tx.
+      specialize (IHl Hxs Cxs i1). destruct (cobj t xs i1) as [r i2]. cbn [fst flat_map] in *. rewrite Tx, Ex, IHl. reflexivity. }
+    specialize (L kvs IH Hkvs (i + 1)). destruct (cobj t kvs (i + 1)) as [m i']. cbn [fst jview] in *. rewrite L.
+    rewrite sorted_sort_id by exact Hs. reflexivity.
+Qed.
